@@ -121,6 +121,19 @@ def gen_setops(ops, with_trees=False):
                 for op in ops:
                     cases.append(dump([op, x, y]))
                     if op in ('isect', 'diff'): cases += membership_cases([[op, x, y]], prn)
+        if 'diff' in ops:
+            # many holes, then a cutter that meets a piece boundary with every combination of inclusivity: one interval cut into 4…33 pieces inside ONE call
+            for nn in (3, 8, 9, 10, 16, 17, 32, 33):
+                holes = ' || '.join('>=%d.0.0 <%d.1.0' % (i, i) for i in range(1, nn + 1))
+                k = nn // 2
+                prh = [V(k, 0, 9), V(k, 1, 0), V(k, 1, 1), V(k, 0, 0), V(k, 2, 0), V(k + 1, 0, 0), V(k, 9, 9), V(0, 5, 0), V(nn + 1, 0, 0), V(k - 1, 1, 0), V(k - 1, 5, 0)]
+                for tie in ('%d.1.0' % k, '>%d.0.5 <=%d.1.0' % (k, k), '>=%d.1.0 <%d.2.0' % (k, k), '>%d.1.0 <%d.2.0' % (k, k), '<=%d.1.0 >=%d.1.0' % (k - 1, k - 1), '>=%d.5.0 <=%d.0.0' % (k, k + 1)):
+                    b = E_parse(holes + ' || ' + tie); b2 = E_parse(tie + ' || ' + holes)
+                    for at in ('>=0.0.0', '*', '>=0.5.0 <=%d.0.0' % (nn + 1)):
+                        a = E_parse(at)
+                        for bb in (b, b2):
+                            cases.append(dump(['diff', a, bb])); cases += membership_cases([['diff', a, bb], bb, a], prh)
+                            if 'isect' in ops: cases.append(dump(['isect', ['diff', a, bb], bb]))
         if any(o in ops for o in ('isect', 'allows_any', 'allows_all')):
             # BOTH operands with three alternatives, in every order (nested, overlapping, disjoint intervals): index arithmetic, early exits and
             # pruning in the Range-level loops are right for one alternative or for sorted ones, and wrong here
